@@ -856,6 +856,7 @@ func (c *Connection) checkExchanges() {
 
 	curState := c.readState()
 	origState := curState
+	verifPoint("conn.checkExchanges.afterReadState", c.connID)
 
 	if curState != connectionClosed && c.stoppedExchanges.Load() {
 		if moveState(curState, connectionClosed) {
